@@ -51,6 +51,7 @@ def run(ctx: RuleContext):
     ctx.sub(check_fresh_decorator, ctx)
     ctx.sub(check_template, ctx)
     ctx.sub(check_pipeline, ctx)
+    ctx.sub(check_all_returns_instrumented, ctx, "C10.7")
     ctx.sub(check_ipython_same_class, ctx)
 
 
@@ -628,6 +629,42 @@ def check_pipeline(ctx):
                 ctx.bad("C10.7", f, c, f"the `{st}` call does not pass dont_inherit=True: the __future__ flags of jaxtyping's own module would leak into the hooked module")
             else:
                 ctx.ok("C10.7", f.qualname, f"{st}: dont_inherit=True")
+
+
+def check_all_returns_instrumented(ctx, tag="C10.7"):
+    """Every value source_to_code hands back is the compiled *transformed* tree: a path that returns
+    code compiled from the untouched source (a fallback after an error, a fast path) makes the loader
+    run -- and cache under the instrumented tag -- a module without its decorators."""
+    m = ctx.model
+    ld = m.cls("_import_hook._JaxtypingLoader")
+    f = need(ld.methods.get("source_to_code"), "_JaxtypingLoader.source_to_code not found")
+    g = NoReturn(m).cfg(f)
+    dom = g.dominators()
+    visits = [n for n in g.live_nodes() if any(isinstance(c.func, ast.Attribute) and c.func.attr == "visit" for c in node_calls(n))]
+    need(visits, f"{tag}: the transformer pass was not found in source_to_code")
+    n_ret = 0
+    for rn in [n for n in g.live_nodes() if n.kind == "return"]:
+        n_ret += 1
+        v = rn.ast.value
+        src = v
+        if isinstance(v, ast.Name):
+            from . import c05
+
+            defs = c05._assignments_to(f, v.id)
+            src = defs[0][1] if len(defs) == 1 and defs[0][2] is None else None
+        if not isinstance(src, ast.Call):
+            raise AnalysisError(f"{tag}: cannot tell what `{norm(rn.ast)}` in source_to_code returns")
+        args = [norm(a) for a in src.args]
+        is_compile = (isinstance(src.func, ast.Name) and src.func.id == "compile") or (args and args[0] == "compile")
+        after_visit = any(vn.id in dom[rn.id] for vn in visits)
+        if is_compile and after_visit and not any("PyCF_ONLY_AST" in a for a in args):
+            ctx.ok(tag, f.qualname, f"`{short(rn.ast, 60)}`: the compiled tree went through the transformer on every path to this return")
+        elif is_compile and not any("PyCF_ONLY_AST" in a for a in args) or (isinstance(src.func, ast.Attribute) and src.func.attr == "source_to_code"):
+            ctx.bad(tag, f, rn.ast, f"`{short(rn.ast, 70)}` returns code that did not go through the transformer on every path leading here: the module runs (and is "
+                    "cached under the instrumented tag) without its decorators", construct=f"un-instrumented return: {short(rn.ast, 70)}")
+        else:
+            raise AnalysisError(f"{tag}: cannot tell what `{norm(rn.ast)}` in source_to_code returns")
+    ctx.counters[f"{tag}:returns"] = n_ret
 
 
 def check_ipython_same_class(ctx):
